@@ -11,7 +11,7 @@ package coverage
 //@ spec nranges(rev []glyph.ID, k int) int = ite(k <= 0, 0, nranges(rev, k-1) + ite(k == 1 || rev[k-1] != rev[k-2] + 1, 1, 0))
 //@ spec covLen(rev []glyph.ID) int = ite(4 + 2*len(rev) <= 4 + 6*nranges(rev, len(rev)), 4 + 2*len(rev), 4 + 6*nranges(rev, len(rev)))
 
-//@ func (table Table) encInfo() (rev []glyph.ID, format1Length int, format2Length int)   props: C08 C01
+//@ func (table Table) encInfo() (rev []glyph.ID, format1Length int, format2Length int)   props: C08 C01 C16
 //@   requires covValid(table) && len(table) <= 65535
 //@   may_panic
 //@   ensures len(rev) == len(table) && fresh(rev) && off(rev) == 0
@@ -41,7 +41,7 @@ package coverage
 
 // Encode: the number of bytes emitted equals the size computed by encInfo
 // (declared size == emitted size), format 1 lists the glyphs in order.
-//@ func (table Table) Encode() (res []byte)   props: C08 C01
+//@ func (table Table) Encode() (res []byte)   props: C08 C01 C16
 //@   requires covValid(table) && len(table) <= 65535
 //@   may_panic
 //@   ensures len(res) >= 4 && fresh(res)
